@@ -169,6 +169,9 @@ static void write_data(zckCtx *zck, char *data, ssize_t in_size) {
 int main (int argc, char *argv[]) {
     struct arguments arguments = {0};
 
+    /* Files we open must not land on a closed stdin/stdout/stderr */
+    reserve_std_fds();
+
     /* Defaults */
     arguments.log_level = ZCK_LOG_ERROR;
     arguments.chunk_hashtype = ZCK_HASH_UNKNOWN;
